@@ -200,6 +200,13 @@ def single_funnel(ctx):
                     and not (isinstance(c.func.value, ast.Call) and norm(c.func.value.func) == 'super'):
                 ctx.ob(fx, c, False, 'a task body is run outside Task.__call__: its exception is not recorded on the transfer where it happened (it surfaces in '
                                      'the caller, e.g. as a "retryable" stream error), the done() check and the done callbacks are skipped')
+            # ... and the step that runs it (_execute_main) is entered only from the funnel itself, on `self` (seeded C03-Q: the inline
+            # IO write of a non-ranged download ran `task._execute_main(task._get_all_main_kwargs())`, so a destination write error of a
+            # retryable type was retried as a stream error and the download reported success)
+            if isinstance(c.func, ast.Attribute) and c.func.attr == '_execute_main' and not (isinstance(c.func.value, ast.Call) and norm(c.func.value.func) == 'super'):
+                ok = fx.qualname.startswith('tasks.Task.') and norm(c.func.value) == 'self'
+                ctx.ob(fx, c, ok, 'Task._execute_main is entered outside the funnel Task.__call__ (or on another task object): an exception of that task\'s body is not '
+                                  'recorded on the transfer but surfaces in the caller (e.g. as a "retryable" stream error), its done() check and done callbacks are skipped')
     f = ctx.func('tasks.Task.__call__')
     trys = [n for n in own_nodes(f.node) if isinstance(n, ast.Try)]
     ctx.need(trys, 'Task.__call__ has no try statement')
